@@ -23,6 +23,8 @@ func main() {
 				f.WriteTo(os.Stdout)
 			}
 		}
+	case "check":
+		os.Exit(cmdCheck(os.Args[2:]))
 	case "vc":
 		os.Exit(cmdVC(os.Args[2:]))
 	default:
